@@ -1,13 +1,17 @@
 #![allow(clippy::all)]
 mod c01;
+mod c02;
 mod c03;
 mod c04;
+mod c05;
 mod c12;
+mod c13;
 mod c15;
 mod c17;
 mod c18;
 mod c19;
 mod common;
+mod derived;
 
 use dv_core::evidence::Tier;
 
@@ -18,7 +22,9 @@ fn main() {
         std::process::exit(2);
     }
     // panics crossing deserr::deserialize are caught and judged; keep stderr quiet
-    std::panic::set_hook(Box::new(|_| {}));
+    if std::env::var("VERIF_DEBUG").is_err() {
+        std::panic::set_hook(Box::new(|_| {}));
+    }
     if args[1] == "--replay" {
         std::process::exit(common::replay(&args[2]));
     }
@@ -32,9 +38,18 @@ fn main() {
     };
     let code = match args[1].as_str() {
         "C01" => c01::run(tier),
+        "C02" => c02::run(tier),
         "C03" => c03::run(tier),
         "C04" => c04::run(tier),
+        "C05" => c05::run(tier),
+        "C06" => derived::run("C06", tier),
+        "C07" => derived::run("C07", tier),
+        "C08" => derived::run("C08", tier),
+        "C09" => derived::run("C09", tier),
+        "C10" => derived::run("C10", tier),
+        "C11" => derived::run("C11", tier),
         "C12" => c12::run(tier),
+        "C13" => c13::run(tier),
         "C15" => c15::run(tier),
         "C17" => c17::run(tier),
         "C18" => c18::run(tier),
